@@ -27,7 +27,8 @@ LEVEL_TEXT = ('For each space (type subset x colour subset x grid/view shape; qu
               'colour) object of the space is placed in every cell class and held by the agent, every agent pose class is used, and '
               'each key of convert(member) is checked by the harness for shape, dtype kind and bounds against representation.space, '
               'which must agree with Space.contains and with the converted gym Dict/Box space; the same at every step of '
-              'trajectories of all shipped configs via OuterEnv and GymEnvironment (all three representation names).')
+              'trajectories of all shipped configs via OuterEnv and GymEnvironment (all three representation names).'
+              ' Also: declared lists with repeats / NoneGridObject / Hidden / empty, single-row / single-column / single-cell worlds.')
 LEVEL_NOTE = 'Members use declared colours only; shapes >= 2x2 and odd view widths as stated. Trusted: the array comparison.'
 SHARDS = {'quick': 4, 'thorough': 16}
 BUDGET_S = {'quick': 300, 'thorough': 2400}
